@@ -308,6 +308,38 @@ pub fn run(name: &str) -> Option<bool> {
             let p = build_options(&o);
             !crate::outcome::run(&p, &bytes(&["-a", "-f", "name"])).is_value()
         }
+        // C10: `sleep drink --help` with a chain of adjacent commands where `sleep` lacks its
+        // required `--time`: the chain is evaluated block by block, the earlier invalid block
+        // answers (with its own help here, with its error when the help item is out of its reach)
+        "help_behind_invalid_adjacent_command" => {
+            let cmd = |id: Id, name: &str, inner: Spec| {
+                let mut opts = OptSpec::plain(Spec::Seq(vec![inner]));
+                opts.descr = Some(format!("D{}-descr", id));
+                Spec::Cmd(Box::new(CmdSpec {
+                    id,
+                    names: vec![name.to_string()],
+                    shorts: vec![],
+                    help: None,
+                    adjacent: true,
+                    opts,
+                }))
+            };
+            let chain = Spec::wrap(
+                W::Many { catch: false },
+                6,
+                Spec::Alt(vec![
+                    cmd(2, "sleep", arg(3, Names::long("time"), Ty::U32)),
+                    cmd(4, "drink", item(5, Names::long("coffee"), Leaf::Switch)),
+                ]),
+            );
+            let o = OptSpec::plain(Spec::Seq(vec![chain]));
+            let p = build_options(&o);
+            let good = crate::outcome::run(&p, &bytes(&["sleep", "--time", "3", "drink", "--help"]));
+            let bad = crate::outcome::run(&p, &bytes(&["sleep", "drink", "--help"]));
+            let describes_drink =
+                |o: &Outcome| matches!(o, Outcome::Stdout { text, .. } if text.contains("D4-descr"));
+            describes_drink(&good) && !describes_drink(&bad)
+        }
         _ => return None,
     })
 }
